@@ -15,7 +15,7 @@ EXTS = {"scenes": ["ma", "mb", "hip", "blend", "nk", "psd"], "caches": ["abc", "
 DIGIT_PATTERNS = [("v", 3), ("r", 2), ("t", 4), ("n", 2)]
 
 
-def make_spec(rng, idx=0):
+def make_spec(rng, idx=0, unmodelled=False):
     used = set()
 
     def feature(p=0.5):
@@ -97,6 +97,13 @@ def make_spec(rng, idx=0):
     spec["typed_narrowing"] = feature()
     # a value mapping that lists only the values that ARE renamed on disk (unlisted values pass through unchanged)
     spec["partial_mapping"] = feature()
+    # two words on disk for ONE sid value ("if the value exists multiple times, the first one is returned"): the
+    # second word is accepted by the path patterns and read as the value, but is never the path of the Sid
+    spec["mapping_synonym"] = feature()
+    # features the Lean model does not have (oracle-only runs): extra path keys computed from a sid key, and a value
+    # mapping that holds for ONE type only
+    spec["extra_keys"] = bool(unmodelled)
+    spec["typed_mapping"] = bool(unmodelled)
     # a folder level that exists only on disk: a path-template key that is NO Sid key, filled by path_defaults
     spec["template_default_key"] = feature()
     if spec["partial_mapping"] and len(spec["projects"]) < 2:
@@ -150,7 +157,7 @@ def write_package(spec, directory):
                 elif l.get("digits"):
                     kp["{%s}" % l["key"]] = "{%s:%s}" % (l["key"], _digits(*l["digits"]))
             key_patterns[b] = kp
-            root = "{@root}/{%s}/%s/{%s:%s}" % (P, spec["folders"]["prod"], T, bt["folder"])
+            root = "{@root}/{%s}/%s%s/{%s:%s}" % (P, "{tdisk}/" if spec.get("extra_keys") else "", spec["folders"]["prod"], T, bt["folder"])
             dirs = root
             lvl_dirs = []
             for l in bt["levels"]:
@@ -190,7 +197,7 @@ def write_package(spec, directory):
             kp["{%s:%s}" % (E, g)] = "{%s:%s}" % (E, _closed(exts + [a for a in spec["aliases"] if set(spec["aliases"][a]) <= set(exts)]))
         key_patterns[b] = kp
         # path templates
-        root = "{@root}/{%s}/%s%s/{%s:%s}" % (P, "{dept0}/" if spec.get("template_default_key") else "", spec["folders"]["prod"], T, bt["folder"])
+        root = "{@root}/{%s}/%s%s%s/{%s:%s}" % (P, "{tdisk}/" if spec.get("extra_keys") else "", "{dept0}/" if spec.get("template_default_key") else "", spec["folders"]["prod"], T, bt["folder"])
         dirs = root
         lvl_dirs = []
         for l in bt["levels"]:
@@ -233,12 +240,18 @@ def write_package(spec, directory):
     mapping = {P: {p.upper(): p for p in renamed},
                T: {bt["folder"]: bt["code"] for bt in spec["basetypes"]},
                S: {v: k for k, v in spec["states"].items()}}
+    state_words = list(spec["states"].values()) + (["FINAL"] if spec.get("typed_mapping") else [])
+    if spec.get("mapping_synonym"):
+        k0, v0 = list(spec["states"].items())[0]
+        mapping[S][v0 + "2"] = k0
+        mapping[T][spec["basetypes"][0]["folder"] + "_BIS"] = spec["basetypes"][0]["code"]
+        state_words.append(v0 + "2")
     fs_kp = {}
     for bt in spec["basetypes"]:
         fs_kp[bt["name"]] = {
             "{%s}" % P: "{%s:%s}" % (P, _closed(disk_projects)),
-            "{%s:%s}" % (T, bt["folder"]): "{%s:%s}" % (T, _closed([bt["folder"]])),
-            "{%s}" % S: "{%s:%s}" % (S, _closed(list(spec["states"].values()))),
+            "{%s:%s}" % (T, bt["folder"]): "{%s:%s}" % (T, _closed([bt["folder"]] + ([bt["folder"] + "_BIS"] if spec.get("mapping_synonym") and bt is spec["basetypes"][0] else []))),
+            "{%s}" % S: "{%s:%s}" % (S, _closed(state_words)),
         }
     fs_kp["project"] = {"{%s}" % P: "{%s:%s}" % (P, _closed(disk_projects))}
 
@@ -251,7 +264,7 @@ def write_package(spec, directory):
         fs_kp_alt[bt["name"]] = {
             "{%s}" % P: "{%s:%s}" % (P, _closed(list(mapping_alt[P].keys()))),
             "{%s:%s}" % (T, bt["folder"]): "{%s:%s}" % (T, _closed([bt["folder"] + "_LIB"])),
-            "{%s}" % S: "{%s:%s}" % (S, _closed(list(mapping_alt[S].keys()))),
+            "{%s}" % S: "{%s:%s}" % (S, _closed(list(mapping_alt[S].keys()) + (["FINAL"] if spec.get("typed_mapping") else []))),
         }
     fs_kp_alt["project"] = {"{%s}" % P: "{%s:%s}" % (P, _closed(list(mapping_alt[P].keys())))}
 
@@ -264,8 +277,22 @@ def write_package(spec, directory):
             pdef = {S: list(mapping[S].keys())[0]} if spec.get("path_defaults") else {}
             if spec.get("template_default_key"):
                 pdef["dept0"] = "3D"
-            f.write("path_defaults = %r\nsidkeys_to_extrakeys = {}\nextrakeys_to_sidkeys = {}\nsearch_path_mapping = {}\n" % pdef)
-            f.write("path_mapping = %r\n" % mapping)
+            s2e, e2s = {}, {}
+            if spec.get("extra_keys"):      # the (mapped) type folder also decides a disk folder
+                words = list(mapping[T].items())
+                s2e = {T: {"tdisk": {disk: "DISK_" + code.upper() for disk, code in words}}}
+                e2s = {"tdisk": {T: {"DISK_" + code.upper(): code for disk, code in words}}}
+            f.write("path_defaults = %r\nsidkeys_to_extrakeys = %r\nextrakeys_to_sidkeys = %r\nsearch_path_mapping = {}\n" % (pdef, s2e, e2s))
+            mp = dict(mapping)
+            if spec.get("typed_mapping"):   # ONE leaf type spells its first state differently on disk
+                bt0 = next((bt for bt in spec["basetypes"] if bt.get("groups")), None)
+                if bt0:
+                    # (a typed mapping REPLACES the global one for its type: it lists every value, as the code reads it)
+                    k0 = list(spec["states"].keys())[-1]
+                    tm = {"FINAL": k0}
+                    tm.update({disk: k for disk, k in mapping[S].items() if k != k0})
+                    mp[(S, "%s__%s_file" % (bt0["name"], bt0["groups"][0]))] = tm
+            f.write("path_mapping = %r\n" % mp)
             f.write("key_patterns = copy.deepcopy(_kp)\n")
             f.write("for _sel, _d in %r.items():\n    key_patterns.setdefault(_sel, {}).update(_d)\n" % fs_kp)
     fs_conf("spil_fs_conf.py", "LOCAL")
